@@ -144,6 +144,48 @@ CHECKS = {
                 'the candidates) and tagging_ok (scorer variant) which Predictor::new is meant to establish.',
         'technique': TECH + '; arg-max-first predicate + class-offset recursion',
     },
+    'C09': {
+        'level': 'proof',
+        'text': 'The part of Trainer::train that turns a (feature, quantised weight) pair into the stored model is extracted as a block on every run '
+                'and proved: a character n-gram weight goes to slot window - len - rel_position of a vector of 2*window - len + 1 entries where window is '
+                'the CHARACTER window, a type n-gram weight likewise with the TYPE window (every stored vector covers exactly the positions of its own '
+                'window), dictionary weights go to the (left, inside, right) component of their length bucket; no overflow, no failing unwrap, no index out '
+                'of range for features that lie inside their window. lemma_slot_meets_predictor / lemma_word_slots show that these are the slots the '
+                'predictor reads for that relative position (same anchor expression e + 6 + offset as the scorer contracts of unit C_scorers). The '
+                'dictionary expansion closure is proved to produce [left, inside x (n-1), right] for a word of n characters.',
+        'design_ref': 'DESIGN.md section 5.C09',
+        'note': 'Genuine defect found and fixed (type n-gram weights were placed with the character window: /repo 7fdb412). NOT proved: quantisation '
+                '(f64, to_int_unchecked), the liblinear calls, the pairing of feature and coefficient through the id map; the wrapper signatures of the '
+                'extracted blocks restate the types rustc infers for the locals of train(). BTreeMap is an assumed stub with a ghost map view.',
+        'technique': TECH + '; block extraction + slot lemmas tied to the predictor-side contract',
+    },
+    'C10': {
+        'level': 'proof',
+        'text': 'gen_features is proved to produce one entry per boundary, labelled by the annotation, whose features are exactly the character n-grams '
+                'of length 1..N and the type n-grams of length 1..M lying inside the respective window, each with its relative position, followed by one '
+                'left/inside/right dictionary feature (bucketed length) per reported dictionary-word occurrence touching the boundary; add_example is proved '
+                'to hand exactly one example per ANNOTATED boundary to the learner, in order, labelled by the annotation, carrying those features, and none '
+                'for unknown boundaries (want_rows / want_labels).',
+        'design_ref': 'DESIGN.md section 5.C10',
+        'note': 'Genuine defect found and fixed (unknown boundaries were handed to liblinear as a third class: /repo 1274a28). ASSUMED: daachorse reports '
+                'exactly the dictionary-word occurrences; the feature-numbering statements of add_example (hashbrown entry API, f64) are an assumed stub '
+                '(decoded_rows); TagTrainer::add_example opaque.',
+        'technique': TECH + '; functional spec of the feature extractor + per-example postcondition',
+    },
+    'C11': {
+        'level': 'exploration',
+        'text': 'BOUNDED stand-in (the training pipeline is liblinear FFI + floating point and cannot be brought within the verifier\'s reach): every '
+                'combination of window and n-gram sizes 1..3 (1..5 thorough), three dictionary settings and seven small corpora (including a corpus '
+                'without any word boundary, an empty one and one with multi-candidate tags) is trained on the real crate; training must return Ok or Err '
+                'without panicking and every returned model must serialise, decode, re-read, be accepted by Predictor::new with and without tag '
+                'prediction, predict and tag texts, and hold only 16-bit weights. Supporting (not the claim): the no-panic obligations of gen_features, '
+                'add_example, the weight-translation block and the dictionary expansion are discharged by Verus in unit X_train.',
+        'design_ref': 'DESIGN.md section 5.C11',
+        'note': 'Three genuine defects found by this sweep and fixed: negative slot index when type window > char window (7fdb412), Predictor::new index '
+                'panic on models trained with n-gram size > window size (cd9204e), unwrap on a corpus without word boundary (e50f803). Bound stated in '
+                'evidence (evaluations / distinct_nontrivial are measured from the run).',
+        'technique': 'bounded sweep of the real trainer (labelled stand-in, not proof) + supporting Verus obligations on the functions within reach',
+    },
     'C13': {
         'level': 'proof',
         'text': 'The predictor unit is verified under BOTH resolutions of the fix-weight-length feature (the extractor evaluates the cfg attributes) '
@@ -178,10 +220,7 @@ CHECKS = {
 }
 
 NOT_APPLICABLE = {
-    'C09': 'coefficient->weight translation is inlined in Trainer::train between liblinear FFI calls and f64 code; no function boundary to put a contract on',
-    'C10': 'example store is filled through hashbrown entry API + f64 inside an FFI-backed crate feature; no contractable boundary',
-    'C11': 'totality of an FFI (liblinear) + floating-point pipeline; outside Verus and Kani',
-    'C12': 'per-token liblinear training; same blockers as C09-C11',
+    'C12': 'per-token liblinear training in tag_trainer.rs: the listing of distinct tags per token and the classifier weights are built inside one function around liblinear FFI calls, f64 quantisation and hashbrown maps keyed by references; no contractable boundary was reached in this session (the feature loops of TagTrainer::add_example are the next candidate)',
     'C17': 'non-default kytea feature: generic BufRead reader stack, f64, trie walk; the only specification of the format is the reader itself',
     'C20': 'process-level behaviour of main() (stdin/stdout, clap, zstd); not a per-function contract',
 }
